@@ -64,7 +64,15 @@ HookStep(S, h, nI, nR) ==
                     (\A s \in Signs(S) :
                         LET cons == LraCons(S.atoms, defs, s, AtomVars(S.atoms))
                         IN EntailsAll(cons, RelCons(IF h.ret = TrueLit THEN h.rel ELSE NegRel(h.rel), e, LConst(Zero)))) = TRUE)]
-            ELSE NewAtom(S, LraAtom(VarOf(h.ret), IF IsPosLit(h.ret) THEN h.rel ELSE NegRel(h.rel), e), nI, nR)
+            ELSE LET a == LraAtom(VarOf(h.ret), IF IsPosLit(h.ret) THEN h.rel ELSE NegRel(h.rel), e)
+                     \* a literal that already stands for a relation is answered again (the assertion cache): the new request
+                     \* must be equivalent to what the literal stands for - wherever the literal is true the requested
+                     \* relation follows from the constraints in force, wherever it is false its negation does
+                     shared == a.v \in AtomVars(S.atoms) /\ a \notin S.atoms
+                     S1 == [S EXCEPT !.ok = S.ok /\ Chk({"C11", "C09", "C02"}, "SharedLiteralSameMeaning",
+                              (shared => \A s \in Signs(S) :
+                                 EntailsAll(LraCons(S.atoms, defs, s, AtomVars(S.atoms)), LraAtomCons(a, a.v \in s))) = TRUE)]
+                 IN NewAtom(S1, a, nI, nR)
     [] h.k = "dist" ->
          LET th == IF h.real = 1 THEN "rdl" ELSE "idl"
              N == IF h.real = 1 THEN nR ELSE nI
